@@ -51,19 +51,6 @@ def addPixels (r : Region) (ps : List Nat) (d : Nat) : Region :=
 def demoteStep (pd : Nat → List Nat) (d : Nat) : Nat → List Nat :=
   setLevel (setLevel pd (d + 1) (dedup (pd (d + 1) ++ (pd d).flatMap children))) d []
 
-/-- `demoteStep` with its two reads shared.  Compiled code would otherwise re-run the whole chain of
-    closures on every access of the resulting function (exponential in the depth); this is the same
-    function (`demoteStep_eq_fast`), and `@[csimp]` makes the evaluator use it. -/
-def demoteStepFast (pd : Nat → List Nat) (d : Nat) : Nat → List Nat :=
-  let a := pd (d + 1)
-  let b := pd d
-  let l := dedup (a ++ b.flatMap children)
-  fun k => if k = d then [] else if k = d + 1 then l else pd k
-
-@[csimp] theorem demoteStep_eq_fast : @demoteStep = @demoteStepFast := by
-  funext pd d k
-  simp only [demoteStep, demoteStepFast, setLevel]
-
 /-- iterations `d, d+1, …, d+n-1` of that loop -/
 def demoteLoop (pd : Nat → List Nat) : Nat → Nat → Nat → List Nat
   | _, 0 => pd
@@ -91,18 +78,6 @@ def renormStep (pd : Nat → List Nat) (d : Nat) : Nat → List Nat :=
   setLevel (setLevel pd d ((pd d).filter (fun x => !complete (pd d) x)))
     (d - 1) (dedup (pd (d - 1) ++ promoted (pd d)))
 
-/-- `renormStep` with its reads shared (see `demoteStepFast`) -/
-def renormStepFast (pd : Nat → List Nat) (d : Nat) : Nat → List Nat :=
-  let l := pd d
-  let up := pd (d - 1)
-  let keep := l.filter (fun x => !complete l x)
-  let par := dedup (up ++ promoted l)
-  fun k => if k = d - 1 then par else if k = d then keep else pd k
-
-@[csimp] theorem renormStep_eq_fast : @renormStep = @renormStepFast := by
-  funext pd d k
-  simp only [renormStep, renormStepFast, setLevel]
-
 /-- iterations `d, d-1, …` (`n` of them) -/
 def renormLoop (pd : Nat → List Nat) : Nat → Nat → Nat → List Nat
   | _, 0 => pd
@@ -112,6 +87,69 @@ def renormLoop (pd : Nat → List Nat) : Nat → Nat → Nat → List Nat
 def renorm (r : Region) : Region :=
   let r1 := demoteAll { r with cached := false }
   { r1 with pd := renormLoop r1.pd r.m (r.m - 2), cached := false }
+
+/-! ### evaluation only: tabulated versions, proved equal and installed with `@[csimp]`
+
+  `pd` is a function; after a few loop iterations it is a tower of closures and compiled code re-runs
+  the whole tower on every access (time exponential in the depth).  The versions below compute the
+  same functions (`demoteAll_eq_fast`, `renorm_eq_fast`) but store each intermediate dictionary as a
+  table for levels `0..m`.  Theorems are stated about `demoteAll` / `renorm`; only the evaluator sees
+  the tabulated code. -/
+
+def lookupFn (tbl : List (List Nat)) (f : Nat → List Nat) (k : Nat) : List Nat :=
+  match tbl[k]? with
+  | some l => l
+  | none => f k
+
+theorem lookupFn_tab (m : Nat) (f : Nat → List Nat) : lookupFn ((List.range (m + 1)).map f) f = f := by
+  funext k
+  simp only [lookupFn, List.getElem?_map]
+  by_cases h : k < m + 1
+  · simp [h]
+  · simp [h]
+
+def demoteLoopFast (m : Nat) (pd : Nat → List Nat) : Nat → Nat → Nat → List Nat
+  | _, 0 => pd
+  | d, n + 1 =>
+    demoteLoopFast m (lookupFn ((List.range (m + 1)).map (demoteStep pd d)) (demoteStep pd d)) (d + 1) n
+
+theorem demoteLoopFast_eq (m : Nat) : ∀ (n d : Nat) (pd : Nat → List Nat),
+    demoteLoopFast m pd d n = demoteLoop pd d n
+  | 0, _, _ => rfl
+  | n + 1, d, pd => by
+    simp only [demoteLoopFast, demoteLoop, lookupFn_tab]
+    exact demoteLoopFast_eq m n (d + 1) (demoteStep pd d)
+
+def renormLoopFast (m : Nat) (pd : Nat → List Nat) : Nat → Nat → Nat → List Nat
+  | _, 0 => pd
+  | d, n + 1 =>
+    renormLoopFast m (lookupFn ((List.range (m + 1)).map (renormStep pd d)) (renormStep pd d)) (d - 1) n
+
+theorem renormLoopFast_eq (m : Nat) : ∀ (n d : Nat) (pd : Nat → List Nat),
+    renormLoopFast m pd d n = renormLoop pd d n
+  | 0, _, _ => rfl
+  | n + 1, d, pd => by
+    simp only [renormLoopFast, renormLoop, lookupFn_tab]
+    exact renormLoopFast_eq m n (d - 1) (renormStep pd d)
+
+def demoteAllFast (r : Region) : Region :=
+  if cacheEmpty r then
+    { r with pd := lookupFn ((List.range (r.m + 1)).map (demoteLoopFast r.m r.pd 1 (r.m - 1)))
+                     (demoteLoopFast r.m r.pd 1 (r.m - 1)), cached := true }
+  else r
+
+@[csimp] theorem demoteAll_eq_fast : @demoteAll = @demoteAllFast := by
+  funext r
+  simp only [demoteAll, demoteAllFast, lookupFn_tab, demoteLoopFast_eq]
+
+def renormFast (r : Region) : Region :=
+  let r1 := demoteAll { r with cached := false }
+  { r1 with pd := lookupFn ((List.range (r.m + 1)).map (renormLoopFast r.m r1.pd r.m (r.m - 2)))
+                    (renormLoopFast r.m r1.pd r.m (r.m - 2)), cached := false }
+
+@[csimp] theorem renorm_eq_fast : @renorm = @renormFast := by
+  funext r
+  simp only [renorm, renormFast, lookupFn_tab, renormLoopFast_eq]
 
 /-- the levels of a finer operand below our own deepest level, degraded with `p // 4**(d-maxdepth)` -/
 def degraded (m : Nat) (o : Region) : List Nat :=
